@@ -277,6 +277,9 @@ func (fv *FV) assert(st *State, kind string, goal Term, pos token.Pos, text stri
 func (fv *FV) specEnv(st *State, atPos token.Pos, results []Term, post bool) *SpecEnv {
 	env := &SpecEnv{reg: fv.reg, pk: fv.pk, bound: map[string]Term{}}
 	env.lookup = func(name string, old bool) (Term, bool) {
+		if strings.Contains(name, ".") {
+			return fv.lookupGlobal(fv.pk, name)
+		}
 		// results
 		if results != nil {
 			for i, rn := range fv.resNames {
@@ -325,6 +328,19 @@ func (fv *FV) specEnv(st *State, atPos token.Pos, results []Term, post bool) *Sp
 		return Term{}, false
 	}
 	return env
+}
+
+// lookupGlobal resolves "pkg.Var" (a package-level variable) to its symbol.
+func (fv *FV) lookupGlobal(pk *packages.Package, name string) (Term, bool) {
+	i := strings.Index(name, ".")
+	tp := fv.p.lookupPkgByName(pk, name[:i])
+	if tp == nil {
+		return Term{}, false
+	}
+	if v, ok := tp.Scope().Lookup(name[i+1:]).(*types.Var); ok {
+		return fv.globalVar(v), true
+	}
+	return Term{}, false
 }
 
 func (fv *FV) readVar(st *State, obj types.Object) Term {
